@@ -149,8 +149,31 @@ class Ex:
         if "bytes" in op:
             return ("bytes", tuple(op["bytes"]))
         if "promoted" in op:
+            pe = self._promoted(int(op["promoted"]))
+            if pe is not None:
+                return pe
             return ("const", op["ty"], "promoted%s" % op["promoted"])
         return ("const", op["ty"], None)
+
+    def _promoted(self, n):
+        """value of a promoted constant of this function, reconstructed from its own tiny MIR body"""
+        proms = self.fn.raw.get("promoted") or []
+        if n >= len(proms) or getattr(self, "_in_prom", False):
+            return None
+        key = ("prom", n)
+        if key in self._memo:
+            return self._memo[key]
+        from .mir import Fn
+        raw = dict(path=self.fn.path + "::{promoted#%d}" % n, kind="Promoted", blocks=proms[n]["blocks"], locals=proms[n]["locals"],
+                   arg_count=0, span=self.fn.span, name=None, vis=None, impl_self=None, impl_trait=None, promoted=[])
+        pf = Fn(raw)
+        ex = Ex(pf)
+        ex._in_prom = True
+        out = None
+        for b in pf.exits():
+            out = ex.local(0, (b, None))
+        self._memo[key] = out
+        return out
 
     def place(self, place, at, depth=0):
         base = self.local(place["l"], at, depth, want_proj=place["p"])
@@ -500,4 +523,38 @@ def norm(e):
         return mkphi(tuple(norm(a) for a in e[1]))
     if k == "repeat":
         return ("repeat", norm(e[1]), e[2])
+    return e
+
+
+# ----------------------------------------------------------------------------- purity-aware canonical form
+
+PURE_CALLS = re.compile(r"time::OffsetDateTime::(year|month|day|hour|minute|second)$|::len$|::is_empty$|::is_ascii$|"
+                        r"^types::AesMode::(key_length|salt_length)$|^types::DateTime::(timepart|datepart|year|month|day|hour|minute|second)$")
+
+
+def canon(e):
+    """drop the call-site identity of calls to pure accessors (two calls with equal arguments denote the same value);
+    calls that may read a stream or mutate state keep their site"""
+    k = e[0]
+    if k == "call":
+        args = tuple(canon(a) for a in e[2])
+        if PURE_CALLS.search(e[1]):
+            return ("call", e[1], args, e[3] if len(e) > 3 else None, None)
+        return ("call", e[1], args) + tuple(e[3:])
+    if k in ("field", "variant"):
+        return (k, canon(e[1]), e[2])
+    if k in ("discr", "len", "ok", "err", "errprop", "residual"):
+        return (k, canon(e[1]))
+    if k == "cast":
+        return ("cast", canon(e[1]), e[2], e[3])
+    if k == "un":
+        return ("un", e[1], canon(e[2]))
+    if k == "bin":
+        return ("bin", e[1], canon(e[2]), canon(e[3]))
+    if k == "index":
+        return ("index", canon(e[1]), canon(e[2]))
+    if k == "agg":
+        return ("agg", e[1], e[2], tuple((f, canon(a)) for f, a in e[3]))
+    if k == "phi":
+        return mkphi(tuple(canon(a) for a in e[1]))
     return e
